@@ -83,12 +83,6 @@ Proof. unfold cs_upd. intros H. apply bytes_eqb_neq in H. by rewrite H. Qed.
 
 (** * The refinement, one step *)
 
-Section Cand.
-  Variable sub_ok : bytes -> bool.
-  Variable sub_accepts : bytes -> Z -> bool.
-  Notation nexec := (nexec sub_ok sub_accepts).
-  Notation nstep := (nstep sub_ok sub_accepts).
-
   (** Everything except the two candidate maps. *)
   Definition same_but_cands (s s' : nstate) : Prop :=
     epoch s' = epoch s /\ eblock s' = eblock s /\ count s' = count s /\ cur s' = cur s /\
@@ -125,28 +119,6 @@ Section Cand.
         (split; [repeat split|]); right;
         (split; [lia|]); (split; [eauto|]); split; reflexivity.
   Qed.
-
-  (** Operations that are not candidate operations do not touch the
-      candidate maps. *)
-  Lemma nexec_frame_cands c s o s' ns :
-    nexec c s o = Halt (s', ns) -> is_cand_op o = false ->
-    cands s' = cands s /\ cands2 s' = cands2 s.
-  Proof.
-    intros H Ho. destruct o; try discriminate Ho; cbn [nexec] in H.
-    - (* NewEpoch *) inv_ob H. injection H as <- <-.
-      unfold tick_state. cbv zeta.
-      destruct (e >? count (fill_netmap (set_epoch s e (height c)) e)); split; reflexivity.
-    - (* UpdateSnapshotCount *) inv_ob H. injection H as <- <-.
-      unfold update_snapshot_count in Eo. inv_ob Eo. destruct x0 as [[[r1 id'] ds] df].
-      inv_ob Eo. injection Eo as <-. split; reflexivity.
-    - (* Subscribe *) inv_ob H. destruct x; [injection H as <- <-; split; reflexivity|].
-      inv_ob H. injection H as <- <-. split; reflexivity.
-    - (* SetConfig *) inv_ob H. injection H as <- <-. split; reflexivity.
-  Qed.
-
-  Lemma refines_lookup_ne (m : gmap bytes node) k k' v :
-    k' <> k -> <[k := v]> m !! k' = m !! k'.
-  Proof. intros. by rewrite lookup_insert_ne by congruence. Qed.
 
   Lemma present_iff s f k : refines s f ->
     present (f k) = true <-> (is_Some (cands s !! k) \/ is_Some (cands2 s !! k)).
@@ -204,6 +176,51 @@ Section Cand.
           destruct Hpr as [[? ?]|[? ?]]; discriminate. }
       rewrite Hso. split; [exact R|reflexivity].
   Qed.
+
+  (** Online / Maintenance on a key known to neither list, or a state
+      outside {1,2,3}: fault. *)
+  Lemma update_unknown_faults s k st :
+    (st <> Offline /\ cands s !! k = None /\ cands2 s !! k = None) \/
+    (st <> Online /\ st <> Offline /\ st <> Maintenance) ->
+    update_candidate_state s k st = Fault.
+  Proof.
+    intros H. destruct (update_candidate_state s k st) as [[s' ns]|] eqn:He; [|reflexivity].
+    exfalso. apply update_candidate_state_spec in He as (_ & _ & _ & Hc).
+    destruct Hc as [(-> & _)|(Hst & Hp & _)].
+    - destruct H as [(H & _)|(_ & H & _)]; congruence.
+    - destruct H as [(_ & H1 & H2)|(H1 & _ & H3)]; [|destruct Hst; congruence].
+      rewrite H1, H2 in Hp. destruct Hp as [Hp|Hp]; by apply is_Some_None in Hp.
+  Qed.
+
+Section Cand.
+  Variable sub_ok : bytes -> bool.
+  Variable sub_accepts : bytes -> Z -> bool.
+  Notation nexec := (nexec sub_ok sub_accepts).
+  Notation nstep := (nstep sub_ok sub_accepts).
+
+
+
+  (** Operations that are not candidate operations do not touch the
+      candidate maps. *)
+  Lemma nexec_frame_cands c s o s' ns :
+    nexec c s o = Halt (s', ns) -> is_cand_op o = false ->
+    cands s' = cands s /\ cands2 s' = cands2 s.
+  Proof.
+    intros H Ho. destruct o; try discriminate Ho; cbn [nexec] in H.
+    - (* NewEpoch *) inv_ob H. injection H as <- <-.
+      unfold tick_state. cbv zeta.
+      destruct (e >? count (fill_netmap (set_epoch s e (height c)) e)); split; reflexivity.
+    - (* UpdateSnapshotCount *) inv_ob H. injection H as <- <-.
+      unfold update_snapshot_count in Eo. inv_ob Eo. injection Eo as <-. split; reflexivity.
+    - (* Subscribe *) inv_ob H. destruct x; [injection H as <- <-; split; reflexivity|].
+      inv_ob H. injection H as <- <-. split; reflexivity.
+    - (* SetConfig *) inv_ob H. injection H as <- <-. split; reflexivity.
+  Qed.
+
+  Lemma refines_lookup_ne (m : gmap bytes node) k k' v :
+    k' <> k -> <[k := v]> m !! k' = m !! k'.
+  Proof. intros. by rewrite lookup_insert_ne by congruence. Qed.
+
 
   (** One step of any operation: the outcome is the one the registry
       prescribes and the new state represents the new registry. *)
@@ -303,20 +320,6 @@ Section Cand.
       intros st' k' [=]; subst; assumption.
   Qed.
 
-  (** Online / Maintenance on a key known to neither list, or a state
-      outside {1,2,3}: fault. *)
-  Lemma update_unknown_faults s k st :
-    (st <> Offline /\ cands s !! k = None /\ cands2 s !! k = None) \/
-    (st <> Online /\ st <> Offline /\ st <> Maintenance) ->
-    update_candidate_state s k st = Fault.
-  Proof.
-    intros H. destruct (update_candidate_state s k st) as [[s' ns]|] eqn:He; [|reflexivity].
-    exfalso. apply update_candidate_state_spec in He as (_ & _ & _ & Hc).
-    destruct Hc as [(-> & _)|(Hst & Hp & _)].
-    - destruct H as [(H & _)|(_ & H & _)]; congruence.
-    - destruct H as [(_ & H1 & H2)|(H1 & _ & H3)]; [|destruct Hst; congruence].
-      rewrite H1, H2 in Hp. destruct Hp as [Hp|Hp]; by apply is_Some_None in Hp.
-  Qed.
 
   (** Malformed keys / infos fault where the code checks or slices. *)
   Lemma malformed_faults c s o :
